@@ -75,8 +75,10 @@ def analyse(program):
             res.violations.append(v)
         for (rule, what, b) in eng.obligations:
             w = eng.where(b)
-            via = w["via"][-1] if w["via"] else ""
-            res.obligations.add((rule, what, w["fn"], "%s%s" % (w["bb"], (" via " + via.replace("cactusref::", "")) if via else ""), "%s:%s" % (w["file"], w["line"])))
+            # an anchor is a place in the inlined program: the whole chain of call sites leading to it (so that routing
+            # several operations through one new helper does not merge their anchors)
+            via = " > ".join(x.replace("cactusref::", "") for x in w["via"])
+            res.obligations.add((rule, what, w["fn"], "%s%s" % (w["bb"], (" via " + via) if via else ""), "%s:%s" % (w["file"], w["line"])))
         # structural rules that use the interpreter's view of iterators
         rules_struct.iter1(eng, sv)
         rules_struct.iter3(eng, sv)
@@ -124,7 +126,7 @@ def analyse(program):
     for e, b, what in P.inliner.lazy_unexpanded:
         if what not in seen_:
             seen_.add(what)
-            res.inconclusive.append("%s (in %s): code of the crate with side effects runs inside library code that is not expanded; its effects cannot be analysed" % (what, e))
+            res.inconclusive.append("%s (in %s): this part of the crate is outside what the analysis can follow, so no verdict can be given" % (what, e))
     res.functions = len(P.facts.fns)
     res.call_sites = sum(1 for f in P.facts.fns.values() for b in f.blocks if b["term"]["k"] == "call")
     res.unresolved = sorted(set(P.inliner.unresolved))
